@@ -73,7 +73,8 @@ class Ctx:
         self.pid, self.tier, self.seed = pid, tier, seed
         # runs against another tree (VERIF_REPO: seeded changes in scratch worktrees) keep their output apart from the
         # output and evidence of /repo itself
-        self.alt = os.path.realpath(REPO) != "/repo"
+        # ... and so do partial runs (VERIF_ONLY) and ad-hoc contexts whose id is not a property id
+        self.alt = os.path.realpath(REPO) != "/repo" or bool(os.environ.get("VERIF_ONLY")) or not re.match(r"^C\d\d$", pid)
         self.out = os.path.join(VERIF, "out", "_alt", pid) if self.alt else os.path.join(VERIF, "out", pid)
         shutil.rmtree(self.out, ignore_errors=True)
         os.makedirs(self.out, exist_ok=True)
